@@ -1,6 +1,7 @@
 package main
 
 import (
+	"crypto/sha1"
 	"encoding/json"
 	"flag"
 	"fmt"
@@ -46,6 +47,23 @@ type runSummary struct {
 	Notes   map[string][]string `json:"notes"`
 	Panics  map[string]string `json:"panics"`
 	Samples []string          `json:"samples"`
+	Features []map[string]int `json:"features"` // per case: what the history contained
+	Hashes  []string          `json:"hashes"`
+}
+
+// snapshotCounts flattens the counters a per-case feature vector is computed from
+func snapshotCounts(s *Stats) map[string]int {
+	m := map[string]int{"txns": s.Txns, "commits": s.Commits, "aborts": s.Aborts, "stmts": s.Stmts,
+		"multiblock": s.MultiBlockTxns, "reuse": s.ReuseAfterDelete, "youngcols": s.YoungCols,
+		"restores": s.Restores, "replicas": s.Replicas, "keyed": s.Keyed, "seeded": s.Seeded,
+		"failedinserts": s.FailedInserts, "emitted": s.EmittedCommits, "trigger_events": s.TriggerEvents}
+	for k, v := range s.StmtKinds {
+		m["stmt."+k] = v
+	}
+	for k, v := range s.WritesByKind {
+		m["write."+k] = v
+	}
+	return m
 }
 
 func cmdHist(args []string) {
@@ -103,7 +121,17 @@ func cmdHist(args []string) {
 		shard, shardIdx = nil, nil
 	}
 	for i := lo; i < hi; i++ {
+		before := snapshotCounts(stats)
 		text, notes, pan := runCase(*seed, i, p, stats)
+		after := snapshotCounts(stats)
+		feat := map[string]int{"case": i}
+		for k, v := range after {
+			if d := v - before[k]; d != 0 {
+				feat[k] = d
+			}
+		}
+		sum.Features = append(sum.Features, feat)
+		sum.Hashes = append(sum.Hashes, fmt.Sprintf("%x", sha1.Sum([]byte(text))))
 		if len(notes) > 0 {
 			sum.Notes[fmt.Sprint(i)] = notes
 		}
